@@ -49,9 +49,9 @@ theorem fromXA_uneven (xa : XA α) (ax : Axis) (hax : ax ∈ geo xa) (hev : even
     exact ⟨_, rfl⟩
 
 /-- the spacing test fails as soon as one spacing deviates from the mean spacing by more than
-`1e-8 + 1e-5·|mean|` -/
+`1e-5·|mean|` -/
 theorem evenB_false_of_dev (v : List Rat) (j : Nat) (hj : j + 1 < v.length)
-    (hdev : 1/100000000 + 1/100000 * absR (meanDiff v) < absR ((v.getD (j + 1) 0 - v.getD j 0) - meanDiff v)) :
+    (hdev : 1/100000 * absR (meanDiff v) < absR ((v.getD (j + 1) 0 - v.getD j 0) - meanDiff v)) :
     evenB v = false := by
   unfold evenB
   have h1 : decide (v.length ≤ 1) = false := by apply decide_eq_false; omega
@@ -90,54 +90,98 @@ theorem fromXA_single_no_cell (xa : XA α) (hc : xa.attrs.cell = none) (ax : Axi
 
 end
 
-/-! ## what the spacing test cannot see -/
+/-! ## the spacing test does not depend on the length scale or the origin -/
 
-theorem abs_sumR_le (l : List Rat) (B : Rat) (h : ∀ x ∈ l, |x| ≤ B) : |sumR l| ≤ (l.length : Rat) * B := by
+theorem getD_map_lt (v : List Rat) (f : Rat → Rat) (j : Nat) (hj : j < v.length) :
+    (v.map f).getD j 0 = f (v.getD j 0) := by
+  simp [List.getD_eq_getElem?_getD, hj]
+
+theorem getD_map_mul (s : Rat) (l : List Rat) (j : Nat) : (l.map (s * ·)).getD j 0 = s * l.getD j 0 := by
+  by_cases hj : j < l.length
+  · exact getD_map_lt _ _ _ hj
+  · simp [List.getD_eq_getElem?_getD, not_lt.mp hj]
+
+theorem sumR_map_mul (s : Rat) (l : List Rat) : sumR (l.map (s * ·)) = s * sumR l := by
   induction l with
   | nil => simp [sumR]
-  | cons x xs ih =>
-    have h1 := h x (by simp)
-    have h2 := ih fun y hy => h y (by simp [hy])
-    simp only [sumR, List.length_cons]
-    push_cast
-    have := abs_add_le x (sumR xs)
+  | cons x xs ih => simp only [List.map_cons, sumR, ih]; ring
+
+theorem diffs_map_mul (s : Rat) (v : List Rat) : diffs (v.map (s * ·)) = (diffs v).map (s * ·) := by
+  unfold diffs
+  rw [List.length_map, map_tab]
+  apply tab_congr
+  intro j hj
+  rw [getD_map_lt _ _ _ (by omega), getD_map_lt _ _ _ (by omega)]
+  ring
+
+theorem diffs_map_add (t : Rat) (v : List Rat) : diffs (v.map (· + t)) = diffs v := by
+  unfold diffs
+  rw [List.length_map]
+  apply tab_congr
+  intro j hj
+  rw [getD_map_lt _ _ _ (by omega), getD_map_lt _ _ _ (by omega)]
+  ring
+
+theorem meanDiff_map_mul (s : Rat) (v : List Rat) : meanDiff (v.map (s * ·)) = s * meanDiff v := by
+  unfold meanDiff
+  rw [diffs_map_mul, sumR_map_mul, List.length_map, mul_div_assoc]
+
+theorem absR_mul_pos (s x : Rat) (hs : 0 < s) : absR (s * x) = s * absR x := by
+  rw [absR_eq_abs, absR_eq_abs, abs_mul, abs_of_pos hs]
+
+theorem isclose_scale (s d m r : Rat) (hs : 0 < s) :
+    Region.isclose (s * d) (s * m) r 0 = Region.isclose d m r 0 := by
+  unfold Region.isclose
+  have e : s * d - s * m = s * (d - m) := by ring
+  rw [e, absR_mul_pos _ _ hs, absR_mul_pos _ _ hs]
+  apply decide_eq_decide.mpr
+  constructor
+  · intro h
+    have h' : s * absR (d - m) ≤ s * (0 + r * absR m) := by linarith
+    exact le_of_mul_le_mul_left h' hs
+  · intro h
+    have := mul_le_mul_of_nonneg_left h hs.le
     linarith
 
-/-- **Blind below the absolute tolerance.**  Coordinates whose spacings are all at most
-`5e-9` in absolute value pass the spacing test however uneven they are (the absolute term
-`atol = 1e-8` of `np.allclose` alone covers `|d - mean|`). -/
-theorem evenB_of_small (v : List Rat) (h : ∀ j, j + 1 < v.length → |v.getD (j + 1) 0 - v.getD j 0| ≤ 5/1000000000) :
-    evenB v = true := by
+/-- **Scale invariance of the spacing test**: multiplying all coordinates by a positive factor
+(nanometres instead of metres) does not change whether they count as evenly spaced. -/
+theorem evenB_scale (s : Rat) (hs : 0 < s) (v : List Rat) : evenB (v.map (s * ·)) = evenB v := by
   unfold evenB
-  by_cases hn : v.length ≤ 1
-  · simp [hn]
-  · rw [Bool.or_eq_true]; right
-    rw [allLt_iff]
-    intro j hj
-    have hd : ∀ x ∈ diffs v, |x| ≤ 5/1000000000 := by
-      intro x hx
-      obtain ⟨a, ha, rfl⟩ := mem_tab _ _ _ hx
-      exact h a (by omega)
-    have hs := abs_sumR_le (diffs v) _ hd
-    have hlen : (diffs v).length = v.length - 1 := by simp [diffs]
-    have hpos : (0 : Rat) < ((v.length - 1 : Nat) : Rat) := by
-      have : 0 < v.length - 1 := by omega
-      exact_mod_cast this
-    have hmean : |meanDiff v| ≤ 5/1000000000 := by
-      unfold meanDiff
-      rw [abs_div, abs_of_pos hpos, div_le_iff₀ hpos]
-      rw [hlen] at hs
-      linarith
-    have hdj : |(diffs v).getD j 0| ≤ 5/1000000000 := by
-      unfold diffs
-      rw [getD_tab _ _ _ _ hj]
-      exact h j (by omega)
-    unfold Region.isclose
-    apply decide_eq_true
-    rw [absR_eq_abs, absR_eq_abs]
-    have := abs_sub (diffs v |>.getD j 0) (meanDiff v)
-    have := abs_nonneg (meanDiff v)
-    linarith
+  rw [List.length_map, meanDiff_map_mul, diffs_map_mul]
+  have : (fun j => Region.isclose (((diffs v).map (s * ·)).getD j 0) (s * meanDiff v) (1/100000) 0)
+      = fun j => Region.isclose ((diffs v).getD j 0) (meanDiff v) (1/100000) 0 := by
+    funext j
+    rw [getD_map_mul, isclose_scale _ _ _ _ hs]
+  rw [this]
+
+/-- … and so does moving the origin -/
+theorem evenB_shift (t : Rat) (v : List Rat) : evenB (v.map (· + t)) = evenB v := by
+  unfold evenB meanDiff
+  rw [List.length_map, diffs_map_add]
+
+/-- the axis transformation `scaleCoords` applies -/
+def scaleAxis (s : Rat) (ax : Axis) : Axis :=
+  { ax with coord := ax.coord.map fun c => { c with vals := c.vals.map (s * ·) } }
+
+theorem geo_scaleCoords {α} (s : Rat) (xa : XA α) : geo (scaleCoords s xa) = (geo xa).map (scaleAxis s) := by
+  show ((xa.axes.map (scaleAxis s)).filter fun a => decide (a.name ≠ "vdims")) = _
+  rw [List.filter_map]
+  rfl
+
+/-- the spacing test of the importer gives the same verdict after a change of length unit
+(axes without an assigned coordinate keep xarray's index `0 … n-1`, which is evenly spaced) -/
+theorem checkSpacing_scale {α} (s : Rat) (hs : 0 < s) (xa : XA α) :
+    checkSpacing (scaleCoords s xa) = checkSpacing xa := by
+  unfold checkSpacing
+  rw [geo_scaleCoords, List.all_map]
+  have : ((fun a : Axis => evenB a.values) ∘ scaleAxis s) = fun a => evenB a.values := by
+    funext ax
+    cases hc : ax.coord with
+    | none => simp [Function.comp, scaleAxis, Axis.values, hc]
+    | some c =>
+      simp only [Function.comp, scaleAxis, Axis.values, hc, Option.map_some]
+      exact evenB_scale s hs c.vals
+  rw [this]
 
 /-! ## exported coordinates -/
 
